@@ -340,6 +340,9 @@ def alphabet(m):
     A.append({"op": "set_comp_phases", "name": rails[0] if rails else "nope", "conf": ["b"]})
     A.append({"op": "set_comp_phases", "name": last, "conf": "bad"})
     A.append({"op": "add_comp", "parent": first, "comp": spec_of("ILoad", "NL0"), "group": "", "rail": ""})
+    A.append({"op": "set_sys_phases", "phases": {"x": 1.0, "y": 2.0}})                       # phase plan redefined: earlier configurations name only undefined phases
+    A.append({"op": "set_sys_phases", "phases": {"a": 5.0, "b": 0.5}})                       # same names, other durations
+    A.append({"op": "change_comp", "name": inner[-1], "comp": spec_of(m.nodes[inner[-1]].kind, "NEWNAME"), "group": "", "rail": "NEWNAME"})    # new rail == new name
     for n in [x for x in inner if m.nodes[x].type != "SOURCE"][:2]:
         k = m.nodes[n].kind
         A.append({"op": "change_comp", "name": n, "comp": spec_of("Source", n + "_src"), "group": "", "rail": ""})        # -> Source under a new name: rejected
@@ -405,6 +408,15 @@ def random_case(args):
     out["failures"] = [f for f in F if set(f["props"]) & set(props)]
     if idx < 2: out["sample"] = {"history": [op_text(o) for o in allops][-8:], "verdict": "%d failures" % len(F)}
     return out
+
+
+def single_call_family(props):
+    jobs = [(bi, (j,), props) for bi in range(len(BASES)) for j in range(len(alphabet(Model.of({"ops": BASES[bi]}))))]
+    res = summarize(run_pool(exhaustive_case, jobs),
+                    "every single valid/invalid edit or configuration call of the alphabet (~55 calls) applied to each of the %d base systems; afterwards every report must succeed and the solve table is checked against the reference model of the final structure and against systems rebuilt from scratch" % len(BASES),
+                    "all histories of length 1 over the alphabet")
+    res["exhaustive"] = True
+    return res
 
 
 def random_history_family(seed, n, length, props):
